@@ -84,6 +84,6 @@ def run(ctx):
     if not ctx.replay:
         need = ['empty', 'unsupported', 'invalid:length', 'invalid:zero', 'invalid:limit', 'invalid:overflow', 'invalid:coil-value',
                 'valid:fc1', 'valid:fc2', 'valid:fc3', 'valid:fc4', 'valid:fc5', 'valid:fc6', 'valid:fc15', 'valid:fc16',
-                'valid:fc15:bytecount-lie', 'replies:exception', 'replies:silent', 'replies:normal', 'sessions:units=0', 'sessions:units=3']
+                'valid:fc15:bytecount-lie', 'replies:exception', 'replies:silent', 'replies:normal', 'sessions:units=0', 'sessions:units=3', 'sessions:with-shared-handler-object']
         missing = [k for k in need if cl.get(k, 0) < 3]
         ctx.oblige('generator-reaches-expected-classes', not missing, 'missing: ' + ','.join(missing))
